@@ -1,8 +1,12 @@
 #!/bin/bash
 # Re-runs every seeded change against the check of its property (quick tier) and rewrites seeded/RESULTS.md.
+# With arguments (seed ids): re-runs only those and replaces / adds their rows in the existing table.
 cd /verif
-out=seeded/RESULTS.md
-cat > $out <<'HDR'
+final=seeded/RESULTS.md
+only="$*"
+out=$final
+if [ -n "$only" ]; then out=/tmp/seed_matrix_rows.$$; : > $out; fi
+[ -z "$only" ] && cat > $out <<'HDR'
 # Seeded changes and which check catches them
 
 Each directory holds `patch.diff` (relative to the current /repo HEAD; apply with `git -C /repo apply`, undo with
@@ -14,18 +18,21 @@ only the property text and a scratch worktree; all keep the 41 repository tests 
 | seed | summary | needs | quick check verdict | first violation class |
 |---|---|---|---|---|
 HDR
-for d in $(ls seeded | grep "^C" | sort); do
+for d in $(if [ -n "$only" ]; then echo $only; else ls seeded | grep "^C" | sort; fi); do
   prop=${d%%-*}
   st=$(python3 -c "import json;m=json.load(open('seeded/$d/meta.json'));print(m.get('rebased',{}).get('result','?'))")
   sum=$(python3 -c "import json;m=json.load(open('seeded/$d/meta.json'));print(m.get('summary','').replace('|','/').replace('\n',' ')[:160])")
   needs=$(python3 -c "import json;m=json.load(open('seeded/$d/meta.json'));print(m.get('needs','').replace('|','/').replace('\n',' ')[:160])")
   also=$(python3 -c "import json;m=json.load(open('seeded/$d/meta.json'));print(' '.join(m.get('also_check',[])))")
+  excl=$(python3 -c "import json;m=json.load(open('seeded/$d/meta.json'));print(m.get('excluded','').replace('|','/'))")
+  if [ -n "$excl" ]; then echo "| $d | $sum | $needs | excluded | $excl |" >> $out; echo "$d excluded"; continue; fi
   case "$st" in ok*|"?") ;; *)
     if [ -z "$also" ]; then echo "| $d | $sum | $needs | no longer breaks $prop at the final HEAD: $st | |" >> $out; continue; fi;;
   esac
   verdict=""; cls=""
   case "$st" in ok*|"?")
-    r=$(tools/seedtest.sh /verif/seeded/$d/patch.diff $prop quick 2>&1)
+    tier=$(python3 -c "import json;m=json.load(open('seeded/$d/meta.json'));print(m.get('tier','quick'))")
+    r=$(tools/seedtest.sh /verif/seeded/$d/patch.diff $prop $tier 2>&1)
     verdict=$(echo "$r" | grep -E "^(DETECTED|MISSED|MACHINERY|PATCH)" | head -1 | cut -d' ' -f1)
     cls=$(echo "$r" | grep "site=" | head -1 | sed 's/ cases=.*//' | sed 's/^ *//' | cut -c1-150 | sed 's/|/\//g');;
   *) verdict="masked-for-$prop($st)";;
@@ -40,6 +47,21 @@ for d in $(ls seeded | grep "^C" | sort); do
       fi
     done
   fi
+  [ "$tier" = thorough ] && verdict="$verdict (thorough tier)"
   echo "| $d | $sum | $needs | $verdict | $cls |" >> $out
   echo "$d $verdict"
 done
+
+if [ -n "$only" ]; then
+  python3 - $out $final <<'PY'
+import sys
+rows={l.split('|')[1].strip():l for l in open(sys.argv[1]) if l.startswith('|')}
+lines=open(sys.argv[2]).read().split('\n')
+head=[l for l in lines if not l.startswith('| C')]
+body={l.split('|')[1].strip():l for l in lines if l.startswith('| C')}
+for k,v in rows.items(): body[k]=v.rstrip('\n')
+while head and head[-1]=='': head.pop()
+open(sys.argv[2],'w').write('\n'.join(head+[body[k] for k in sorted(body)])+'\n')
+PY
+  rm -f $out
+fi
